@@ -13,10 +13,11 @@ import Kurbo.OpsSvgWrite
 import Kurbo.OpsPathMut
 import Kurbo.OpsQuartic
 import Kurbo.OpsAssign
+import Kurbo.OpsEllipsePerimeter
 open Kurbo Kurbo.Driver
 
 def tables (K : Type) [Scalar K] [Codec K] : List (String → Option (Rd String)) :=
-  [opsKernel (K := K), opsPath (K := K), opsSolve (K := K), opsCurve (K := K), opsQuads (K := K), opsFlatten (K := K), opsShapes (K := K), opsSvg (K := K), opsDash (K := K), opsStroke (K := K), opsSimplify (K := K), opsSvgWrite (K := K), opsPathMut (K := K), opsQuartic (K := K), opsAssign (K := K)]
+  [opsKernel (K := K), opsPath (K := K), opsSolve (K := K), opsCurve (K := K), opsQuads (K := K), opsFlatten (K := K), opsShapes (K := K), opsSvg (K := K), opsDash (K := K), opsStroke (K := K), opsSimplify (K := K), opsSvgWrite (K := K), opsPathMut (K := K), opsQuartic (K := K), opsAssign (K := K), opsEllipsePerimeter (K := K)]
 
 def runLine (K : Type) [Scalar K] [Codec K] (line : String) : String :=
   let toks := (line.trimAscii.toString.splitOn " ").filter (· ≠ "")
